@@ -6,6 +6,7 @@ CONSTANTS
   KeyScalars = {"s_word", "int_pos", "int_neg"}
   CellTypes = {"list", "dict", "set", "date"}
   DateRanks = {1}
+  TzShapes = {"utc"}
   SortOpts = {TRUE, FALSE}
   FlowOpts = {"N"}
   StyleOpts = {""}
